@@ -121,7 +121,8 @@ def sim_consts(nk, maxmut, maxlen, **kw):
 
 def replay_gen(c, mode, conc, cs, num, seed, label, memcap=60, l0=2, gen=None, **hk):
     behs, r = gen or generate(c, conc, cs, num, cs["MaxLen"] + 5, seed)
-    c.add_tlc(r, "simulate x%d %s (table %d)" % (num, label, conc))
+    if not hk.pop("again", False):
+        c.add_tlc(r, "simulate x%d %s (table %d)" % (num, label, conc))
     cfg = dict(Mode=mode, Conc=conc, NK=cs["NK"], MaxBatch=cs["MaxBatch"], MemCap=memcap, L0Trigger=l0, Chunk=40)
     if mode == "operator":
         cfg["tune.dkv.memTableSize"] = memcap
@@ -161,7 +162,7 @@ def run(c):
     jobs = [("store", 0, 60, 2, 3, n, {}), ("store", 1, 700, 2, 5, n, {}), ("store", 2, 45, 1, 5, n, {}),
             ("store", 4, 60, 2, 5, n, dict(MaxCkpt=3, MaxRestore=2)), ("store", 3, 90, 3, 3, n, dict(MaxTimers=0)), ("store", 0, 130, 2, 5, n, {})]
     if q:
-        jobs += [("operator", 2, 60, 2, 5, 25, {}), ("operator", 4, 60, 2, 3, 25, {})]
+        jobs += [("operator", 2, 60, 2, 5, 40, {}), ("operator", 4, 60, 2, 3, 40, {})]
     else:
         jobs += [("store", 4, 130, 3, 3, n, dict(MaxCkpt=3, MaxRestore=2)), ("store", 2, 200, 2, 3, n, {}), ("store", 1, 1500, 1, 3, n, {}),
                  ("operator", 0, 60, 2, 5, 250, {}), ("operator", 1, 700, 2, 3, 250, {}), ("operator", 2, 45, 1, 5, 250, {}),
@@ -176,6 +177,8 @@ def run(c):
         vacuous(c, res, "%s replay %d" % (mode, i), "fetches_nonempty", 10 if mode == "operator" else 20)
         if mode == "store":
             vacuous(c, res, "store replay %d" % i, "bg_steps", 20)
+        # the same behaviours under another rotation / compaction rhythm (the model's Bg steps then meet other real states)
+        replay_gen(c, mode, conc, css[i], num, c.seed * 100 + i, "%d keys" % nk, memcap=memcap * 2 + 15, l0=l0 % 3 + 1, gen=gens[i], again=True)
     c.assumptions += [
         "the handler answers only for keys of its batch; one operator per assembly, one source runner",
         "namespaces are valid UTF-8 strings shorter than 256 bytes (the protocol field is a string; its length is stored in one byte)",
